@@ -8,7 +8,10 @@ negative (metamorphic, fault injection): on the committed dataset, one file
 reachable from the description is modified -- bit flip, truncation,
 extension, deletion, swap with a sibling of the same kind, rollback to the
 version saved after an earlier session (optionally together with all its
-ancestor lists), replacement by the same-named file of another directory.  If
+ancestor lists), replacement by the same-named file of another directory, and
+eight well-formed edits of a metadata file (the algorithm list emptied /
+shortened / doubled, a recorded checksum list emptied, a count changed, an
+entry dropped or moved, the same document re-serialised compactly).  If
 the reference digests (vlib.refhash) of the faulted file differ from the
 digests recorded for it (i.e. the fault is a real modification), opening the
 dataset and check(hash_checksums_values=<root checksums taken before the
@@ -24,6 +27,7 @@ rollbacks.
 """
 from __future__ import annotations
 
+import json
 import os
 from pathlib import Path
 
@@ -52,8 +56,9 @@ ASSUMPTIONS = [
 
 KINDS = [
     "flip", "flip", "truncate", "extend", "delete", "swap", "rollback",
-    "rollback_chain", "foreign", "subst", "subst", "insert"
+    "rollback_chain", "foreign", "subst", "subst", "insert", "edit", "edit"
 ]
+N_EDITS = 8
 # "interesting" byte values for substitutions / insertions: white space and
 # line-end variants (text files parse the same after such a change), NUL,
 # digits, 0xFF.
@@ -206,6 +211,11 @@ def apply_fault(c: Committed, rel: str, kind: str, pos: int, bit: int,
         pos %= len(data) + 1
         path.write_bytes(data[:pos] + INSERTS[bit % len(INSERTS)] +
                          data[pos:])
+    elif kind == "edit":
+        new = json_edit(rel, data, bit)
+        if new is None or new == data:
+            return None
+        path.write_bytes(new)
     elif kind == "extend":
         path.write_bytes(data + extra)
     elif kind == "delete":
@@ -231,6 +241,63 @@ def apply_fault(c: Committed, rel: str, kind: str, pos: int, bit: int,
     else:
         raise ValueError(kind)
     return undo
+
+
+def json_edit(rel: str, data: bytes, which: int):
+    """A well-formed edit of a metadata file (what an editor or a script does,
+    as opposed to byte damage): the file still parses.  None if not
+    applicable."""
+    if not rel.endswith(".json"):
+        return None
+    try:
+        doc = json.loads(data)
+    except ValueError:
+        return None
+    which %= N_EDITS
+    if rel == "dataset_info.json":
+        st_ = doc["dataset_structure"]
+        if which == 0:
+            st_["hash_checksum_algorithms"] = []
+        elif which == 1:
+            st_["hash_checksum_algorithms"] = \
+                st_["hash_checksum_algorithms"][:1]
+        elif which == 2:
+            st_["examples_per_shard"] += 1
+        elif which == 3:
+            doc["metadata"]["description"] += "x"
+        elif which == 4:
+            return json.dumps(doc, separators=(",", ":")).encode()
+        elif which == 5:
+            for sp in doc["splits"].values():
+                sp["shard_list_info_file"]["hash_checksums"] = []
+        elif which == 6:
+            st_["hash_checksum_algorithms"] = \
+                st_["hash_checksum_algorithms"] * 2
+        else:
+            for sp in doc["splits"].values():
+                sp["number_of_examples"] += 1
+    else:
+        shards = doc.get("shard_files", [])
+        kids = doc.get("children_shard_lists", [])
+        if which == 0 and shards:
+            shards[0]["number_of_examples"] += 1
+        elif which == 1 and shards:
+            shards[-1]["custom_metadata"] = {"edited": True}
+        elif which == 2 and shards:
+            shards.pop()
+        elif which == 3 and shards:
+            shards[0]["file_infos"][0]["hash_checksums"] = []
+        elif which == 4:
+            return json.dumps(doc, separators=(",", ":")).encode()
+        elif which == 5 and kids:
+            kids[0]["shard_list_info_file"]["hash_checksums"] = []
+        elif which == 6 and kids:
+            kids.pop()
+        elif which == 7 and len(shards) >= 2:
+            shards[0], shards[-1] = shards[-1], shards[0]
+        else:
+            return None
+    return json.dumps(doc, indent=2, ensure_ascii=False).encode()
 
 
 def restore(c: Committed, undo: dict):
@@ -434,6 +501,9 @@ def run_sweep(case, ctx):
                     for v in range(len(INSERTS)):
                         one_fault(c, ctx, rel, role, "insert", pos, v, b"",
                                   None, None, hist_fp)
+            for v in range(N_EDITS):
+                one_fault(c, ctx, rel, role, "edit", 0, v, b"", None, None,
+                          hist_fp)
             one_fault(c, ctx, rel, role, "extend", 0, 0, b" ", None, None,
                       hist_fp)
             one_fault(c, ctx, rel, role, "extend", 0, 0, b"\n", None, None,
